@@ -191,7 +191,189 @@ let projections = [
 let split_ws s = List.filter (fun x -> x <> "") (String.split_on_char ' ' s)
 let us m = String.map (fun c -> if c = ' ' then '_' else c) m
 
+
+(* ================================================================================================================
+   T2: model-chosen schedules of the fine-grained layer (Model/Rest.v part (b)).
+     restdriver gen <seed> <n>             prints n schedules: thread table + items, every item enabled in the model
+     restdriver check <schedules> <trace>  replays the model along the items and compares with what the real handler
+                                           did after every item (harness/restdiff/sched.go) and at the end
+   ================================================================================================================ *)
+let pc_name = function
+  | Q0 -> "Q0" | Q1 -> "Q1" | Q1b -> "Q1b" | Q2 -> "Q2" | Q3 -> "Q3" | Q4 -> "Q4" | Q5 -> "Q5" | QF -> "QF"
+  (* the extraction renames the pcs D0..D7 of DestroySession (Decimal.D0.. are constructors too) *)
+  | D20 -> "D0" | D21 -> "D1" | D22 -> "D2" | D23 -> "D3" | D24 -> "D4" | D25 -> "D5" | D26 -> "D6" | D27 -> "D7" | DF -> "DF"
+  | K0 -> "K0" | K1 -> "K1" | K2 -> "K2" | K3 -> "K3"
+  | C0 -> "C0" | C1 -> "C1" | C2 -> "C2" | C3 -> "C3" | C4 -> "C4" | C5 -> "C5" | C6 -> "C6" | C7 -> "C7" | CA -> "CA"
+  | Done None -> "Done" | Done (Some R200) -> "Done200" | Done (Some R201) -> "Done201"
+  | Done (Some R401) -> "Done401" | Done (Some R409) -> "Done409" | Panic -> "Panic"
+
+let thr_tok = function TUser p -> "u" ^ string_of_int (int_of_pos p) | TCb c -> "c" ^ string_of_int (int_of_pos c)
+let thr_of_tok (t : ostring) : thr =
+  let n = int_of_string (String.sub t 1 (String.length t - 1)) in
+  if t.[0] = 'u' then TUser (pos_of_int n) else TCb (pos_of_int n)
+
+let item_tok = function SRun t -> "run " ^ thr_tok t | SFire c -> "fire " ^ string_of_int (int_of_pos c)
+let pc_of st t = match pool_get st t with Some (_, p) -> Some p | None -> None
+let pcname_of st t = match pc_of st t with Some p -> pc_name p | None -> "absent"
+
+type sthread = { tid : int; kind : ostring; ck : int }
+
+let start_pc = function "req" -> Q0 | "del" -> D20 | _ -> K0
+
+let init_of (ths : sthread list) : fstate =
+  mk_finit (List.map (fun t -> (TUser (pos_of_int t.tid), (pos_of_int t.ck, start_pc t.kind))) ths)
+
+let gen_one (rng : Random.State.t) (id : ostring) =
+  let nsess = 1 + Random.State.int rng 2 in
+  let ths = ref [] and next = ref 1 in
+  let add kind ck = ths := { tid = !next; kind; ck } :: !ths; incr next in
+  for c = 1 to nsess do add "create" c done;
+  let nreq = 1 + Random.State.int rng 4 and ndel = Random.State.int rng 3 in
+  for _ = 1 to nreq do add "req" (1 + Random.State.int rng nsess) done;
+  for _ = 1 to ndel do add "del" (1 + Random.State.int rng nsess) done;
+  let ths = List.rev !ths in
+  Printf.printf "S %s %d\n" id nsess;
+  List.iter (fun t -> Printf.printf "T u%d %s %d\n" t.tid t.kind t.ck) ths;
+  let st = ref (init_of ths) in
+  let armed_at = Hashtbl.create 4 and counter = ref 0 in
+  let fired = ref [] in
+  let creators_first = Random.State.int rng 10 < 6 in
+  let last = ref None in
+  let steps = ref 0 in
+  let continue_ = ref true in
+  while !continue_ && !steps < 600 do
+    incr steps;
+    let all = List.map (fun t -> TUser (pos_of_int t.tid)) ths @ List.map (fun c -> TCb (pos_of_int c)) !fired in
+    let enabled = List.filter (fun t -> fstep !st (SRun t) <> None) all in
+    let enabled =
+      if creators_first then
+        (match List.filter (fun t -> match t, pc_of !st t with
+                                     | TUser _, Some (K0 | K1 | K2 | K3) -> true | _ -> false) enabled with
+         | [] -> enabled | l -> l)
+      else enabled in
+    (* all sessions share one timeout: the timer armed earliest is the one that can fire next *)
+    let fire_c =
+      let cands = Hashtbl.fold (fun c n acc -> if (sess !st (pos_of_int c)).fs_timer = TmArmed then (n, c) :: acc else acc) armed_at [] in
+      match List.sort compare cands with (_, c) :: _ -> Some c | [] -> None in
+    let item =
+      match enabled, fire_c with
+      | [], None -> None
+      | [], Some c -> Some (SFire (pos_of_int c))
+      | _, Some c when Random.State.int rng 100 < 12 -> Some (SFire (pos_of_int c))
+      | l, _ ->
+          (match !last with
+           | Some t when List.mem t l && Random.State.int rng 100 < 45 -> Some (SRun t)
+           | _ -> Some (SRun (List.nth l (Random.State.int rng (List.length l))))) in
+    match item with
+    | None -> continue_ := false
+    | Some it ->
+        let before = (match it with SRun t -> pc_of !st t | SFire _ -> None) in
+        (match fstep !st it with
+         | None -> continue_ := false
+         | Some st' ->
+             st := st';
+             Printf.printf "I %s\n" (item_tok it);
+             (match it with
+              | SRun t ->
+                  last := Some t;
+                  let ck = (match pool_get st' t with Some (c, _) -> int_of_pos c | None -> 0) in
+                  (match before, pc_of st' t with
+                   | Some Q1, Some Q1b | Some K2, Some K3 -> incr counter; Hashtbl.replace armed_at ck !counter
+                   | _ -> ())
+              | SFire c -> fired := !fired @ [int_of_pos c]))
+  done;
+  Printf.printf "Z\n"
+
+let gen seed n =
+  let rng = Random.State.make [| seed; 0x5c4ed |] in
+  for k = 0 to n - 1 do gen_one rng (Printf.sprintf "sch%d-%d" seed k) done
+
+(* ---- check ---- *)
+type sched_case = { sid : ostring; ths : sthread list; items : sitem list }
+
+let read_schedules file : sched_case list =
+  let ic = open_in file in
+  let out = ref [] and cur = ref None in
+  (try while true do
+     let line = input_line ic in
+     match split_ws line with
+     | "S" :: id :: _ -> cur := Some { sid = id; ths = []; items = [] }
+     | ["T"; t; kind; ck] ->
+         (match !cur with Some c -> cur := Some { c with ths = c.ths @ [{ tid = int_of_string (String.sub t 1 (String.length t - 1)); kind; ck = int_of_string ck }] } | None -> ())
+     | ["I"; "run"; t] -> (match !cur with Some c -> cur := Some { c with items = c.items @ [SRun (thr_of_tok t)] } | None -> ())
+     | ["I"; "fire"; c'] -> (match !cur with Some c -> cur := Some { c with items = c.items @ [SFire (pos_of_int (int_of_string c'))] } | None -> ())
+     | ["Z"] -> (match !cur with Some c -> out := c :: !out; cur := None | None -> ())
+     | _ -> ()
+   done with End_of_file -> ());
+  close_in ic; List.rev !out
+
+(* observed: per schedule id, per item index: (thread tok, state, label); finals: F / E lines *)
+let check sfile tfile =
+  let scs = read_schedules sfile in
+  let obs : (ostring, (int, ostring * ostring * ostring) Hashtbl.t) Hashtbl.t = Hashtbl.create 64 in
+  let fin : (ostring, (ostring * ostring list) list ref) Hashtbl.t = Hashtbl.create 64 in
+  let ended : (ostring, bool) Hashtbl.t = Hashtbl.create 64 in
+  let ic = open_in tfile in
+  let cur = ref "" in
+  (try while true do
+     let line = input_line ic in
+     match split_ws line with
+     | "S" :: id :: _ -> cur := id; Hashtbl.replace obs id (Hashtbl.create 64); Hashtbl.replace fin id (ref [])
+     | ["A"; k; t; state; label] -> (match Hashtbl.find_opt obs !cur with Some h -> Hashtbl.replace h (int_of_string k) (t, state, label) | None -> ())
+     | ("F" | "E") as tag :: rest -> (match Hashtbl.find_opt fin !cur with Some l -> l := (tag, rest) :: !l | None -> ())
+     | ["Z"] -> Hashtbl.replace ended !cur true
+     | _ -> ()
+   done with End_of_file -> ());
+  close_in ic;
+  List.iter (fun sc ->
+    match Hashtbl.find_opt obs sc.sid with
+    | None -> Printf.printf "K %s not-executed\n" sc.sid
+    | Some h ->
+      let st = ref (init_of sc.ths) in
+      let bad = ref None in
+      List.iteri (fun k it ->
+        if !bad = None then begin
+          match fstep !st it with
+          | None -> bad := Some (Printf.sprintf "model-disabled %d %s" k (item_tok it))
+          | Some st' ->
+              st := st';
+              let t = (match it with SRun t -> t | SFire c -> TCb c) in
+              let want = pcname_of st' t in
+              (match Hashtbl.find_opt h k with
+               | None -> bad := Some (Printf.sprintf "missing-observation %d %s model=%s" k (item_tok it) want)
+               | Some (_, state, label) ->
+                   let is_done = String.length want >= 4 && String.sub want 0 4 = "Done" in
+                   let ok =
+                     if is_done then (state = "finished" || (state = "running" && (match t with TCb _ -> true | _ -> false)))
+                     else (state = "parked" && label = want) in
+                   if not ok then bad := Some (Printf.sprintf "mismatch %d %s model=%s real=%s:%s" k (item_tok it) want state label))
+        end) sc.items;
+      (match !bad with
+       | Some m -> Printf.printf "K %s %s\n" sc.sid m
+       | None ->
+         if not (Hashtbl.mem ended sc.sid) then Printf.printf "K %s incomplete\n" sc.sid else begin
+           (* final comparison: statuses of the handler goroutines, ConnEnd deliveries and table entry per cookie *)
+           let fb = ref None in
+           List.iter (fun (tag, rest) ->
+             match tag, rest with
+             | "F", [t; status] ->
+                 let want = (match pc_of !st (thr_of_tok t) with
+                             | Some (Done (Some R200)) -> "200" | Some (Done (Some R201)) -> "201"
+                             | Some (Done (Some R401)) -> "401" | Some (Done (Some R409)) -> "409"
+                             | Some p -> "unfinished:" ^ pc_name p | None -> "absent") in
+                 if want <> status && !fb = None then fb := Some (Printf.sprintf "final-status %s model=%s real=%s" t want status)
+             | "E", [c; connend; entry] ->
+                 let se = sess !st (pos_of_int (int_of_string c)) in
+                 let wc = string_of_int (int_of_nat se.fs_connend) and we = if se.fs_entry then "1" else "0" in
+                 if (wc <> connend || (entry <> "?" && we <> entry)) && !fb = None then
+                   fb := Some (Printf.sprintf "final-session %s model=connend:%s,entry:%s real=connend:%s,entry:%s" c wc we connend entry)
+             | _ -> ()) (match Hashtbl.find_opt fin sc.sid with Some l -> List.rev !l | None -> []);
+           (match !fb with Some m -> Printf.printf "K %s %s\n" sc.sid m | None -> Printf.printf "K %s ok %d\n" sc.sid (List.length sc.items))
+         end)) scs
+
 let () =
+  if Array.length Sys.argv >= 4 && Sys.argv.(1) = "gen" then (gen (int_of_string Sys.argv.(2)) (int_of_string Sys.argv.(3)); exit 0);
+  if Array.length Sys.argv >= 4 && Sys.argv.(1) = "check" then (check Sys.argv.(2) Sys.argv.(3); exit 0);
   let file = Sys.argv.(1) in
   let projs = if Array.length Sys.argv > 2 then Array.to_list (Array.sub Sys.argv 2 (Array.length Sys.argv - 2)) else ["all"] in
   let ic = open_in file in
